@@ -4,8 +4,10 @@
   compiled to a native executable.
 -/
 import IsoDT.Model.Calendar
+import IsoDT.Model.TimePoint
 
 open IsoDT IsoDT.Model
+open IsoDT.Spec (Date TZ TP)
 
 def ints? (l : List String) : Option (List Int) := l.mapM String.toInt?
 
@@ -51,7 +53,7 @@ def viewsOp (m : Mode) (rep : String) (a : List Int) : String :=
     | _, _ => none
   s!"{showO3 c} | {showO2 o} | {showO3 w}"
 
-def dispatch (toks : List String) : String :=
+def dispatch0 (toks : List String) : String :=
   match toks with
   | "views" :: mode :: rep :: rest =>
     match Mode.ofName? mode, ints? rest with
@@ -65,6 +67,92 @@ def dispatch (toks : List String) : String :=
     | some m, some a => calOp op m a
     | _, _ => "bad-op"
   | _ => "bad-op"
+
+/-- Parse `rep y a b hh mi ss tzh tzm` (9 tokens; `b` ignored for ordinal dates). -/
+def parseTP (toks : List String) : Option (TP × List String) :=
+  match toks with
+  | rep :: rest =>
+    match ints? (rest.take 8) with
+    | some [y, a, b, hh, mi, ss, tzh, tzm] =>
+      let date? : Option Date := match rep with
+        | "c" => some (.cal y a b) | "o" => some (.ord y a) | "w" => some (.week y a b) | _ => none
+      date?.map fun date => ({ date := date, hh := hh, mi := mi, ss := ss, tz := ⟨tzh, tzm⟩ }, rest.drop 8)
+    | _ => none
+  | _ => none
+
+def parseDur (toks : List String) : Option (Dur × List String) :=
+  match toks with
+  | "W" :: w :: rest => w.toInt?.map fun w => (Dur.weeks w, rest)
+  | "U" :: rest =>
+    match ints? (rest.take 6) with
+    | some [y, mo, d, h, mi, s] => some (Dur.units y mo d h mi s, rest.drop 6)
+    | _ => none
+  | _ => none
+
+def showDate : Date → String
+  | .cal y mo d => s!"c {y} {mo} {d}"
+  | .ord y doy => s!"o {y} {doy} 0"
+  | .week y w d => s!"w {y} {w} {d}"
+
+def showTP (p : TP) : String :=
+  s!"{showDate p.date} {p.hh} {p.mi} {p.ss} {p.tz.h} {p.tz.mi}"
+
+def showOTP : Option TP → String
+  | some p => showTP p
+  | none => "err"
+
+def showDur : Dur → String
+  | .weeks w => s!"W {w}"
+  | .units y mo d h mi s => s!"U {y} {mo} {d} {h} {mi} {s}"
+
+def showODur : Option Dur → String
+  | some d => showDur d
+  | none => "err"
+
+def showInts (l : List Int) : String := " ".intercalate (l.map toString)
+
+def tpOp (op : String) (m : Mode) (rest : List String) : String :=
+  match parseTP rest with
+  | none => "bad-op"
+  | some (p, rest) =>
+    match op with
+    | "add" => match parseDur rest with
+      | some (d, _) => showOTP (addDur m p d)
+      | none => "bad-op"
+    | "sub" => match parseDur rest with
+      | some (d, _) => showOTP (subDur m p d)
+      | none => "bad-op"
+    | "addmonths" => match ints? rest with
+      | some [n] => showOTP (addMonths m p n)
+      | _ => "bad-op"
+    | "tick" => showOTP (tickOver m p)
+    | "tz" => match ints? rest with
+      | some [h, mi] => showOTP (toTimeZone m p ⟨h, mi⟩)
+      | _ => "bad-op"
+    | "hash" => match hashKey m p with
+      | some l => showInts l
+      | none => "err"
+    | "cmp" => match parseTP rest with
+      | some (q, _) => match cmp m p q with
+        | some c => toString c
+        | none => "err"
+      | none => "bad-op"
+    | "subtp" => match parseTP rest with
+      | some (q, _) => showODur (subTP m p q)
+      | none => "bad-op"
+    | _ => "bad-op"
+
+def tpOps : List String := ["add", "sub", "addmonths", "tick", "tz", "hash", "cmp", "subtp"]
+
+def dispatch (toks : List String) : String :=
+  match toks with
+  | op :: mode :: rest =>
+    if tpOps.contains op then
+      match Mode.ofName? mode with
+      | some m => tpOp op m rest
+      | none => "bad-op"
+    else dispatch0 toks
+  | _ => dispatch0 toks
 
 partial def loop (hin : IO.FS.Stream) (hout : IO.FS.Stream) : IO Unit := do
   let line ← hin.getLine
